@@ -4,6 +4,7 @@ package main
 
 import (
 	"fmt"
+	"strconv"
 	"strings"
 )
 
@@ -86,6 +87,8 @@ func (c *Ctx) genText(maxLeaves int) (string, string, *Node) {
 	switch {
 	case roll < 45:
 		return s, "sentence", t
+	case roll < 52:
+		return c.nearMiss(t), "near_miss", t
 	case roll < 80:
 		return c.mutate(s), "mutant", t
 	case roll < 92:
@@ -96,6 +99,61 @@ func (c *Ctx) genText(maxLeaves int) (string, string, *Node) {
 }
 
 func runeHex(s string) string { return hx(string([]rune(s))) }
+
+// nearMiss: a well-formed rule with ONE lexical near miss planted at a place random edits rarely hit - white space other
+// than a blank at a blank's place (CR LF, tab, CR), a sign / leading zero / padding inside a list (short or long), an
+// exponent with leading zeros. The model decides whether the result is still a sentence.
+func (c *Ctx) nearMiss(t *Node) string {
+	r := c.R
+	s := c.style(true).Render(t)
+	switch r.Intn(4) {
+	case 0:
+		// after one of the blanks
+		var idx []int
+		for i := 0; i < len(s); i++ {
+			if s[i] == ' ' {
+				idx = append(idx, i)
+			}
+		}
+		if len(idx) == 0 {
+			return s + "\r\n"
+		}
+		i := pick(r, idx)
+		return s[:i+1] + pick(r, []string{"\r\n", "\r", "\t", "\n\r\n", "\r\n\r\n", "\u00a0", "\v"}) + s[i+1:]
+	case 1:
+		// a list of integers (short or long) with one near-miss element or separator
+		n := pick(r, []int{2, 5, 66, 70, 300})
+		el := make([]string, n)
+		for i := range el {
+			el[i] = strconv.Itoa(r.Intn(1000))
+		}
+		j := r.Intn(n)
+		el[j] = pick(r, []string{"-5", "+5", "007", "5 ", " 5", "5\t", "\t5", "0x5", "5.", "1_000", "-0", "5\n", "05"})
+		sep := ","
+		if r.Chance(1, 3) {
+			sep = pick(r, []string{" ,", ",\t", ",\n", ", ", ",  "})
+		}
+		pre := "x in ["
+		if r.Chance(1, 3) {
+			pre = s + " or x in ["
+		}
+		return pre + strings.Join(el, sep) + "]"
+	case 2:
+		// an exponent with leading zeros or odd signs, alone and in a list
+		d := pick(r, []string{"1.5e-05", "2.0E+007", "1.0e05", "1.5e+0", "1.5e00", "2.5E-00", "1.0e--5", "1.0e+-5", "1e+05", "1e-05"})
+		if r.Chance(1, 2) {
+			return "x lt " + d
+		}
+		return s + " and y in [0.1, " + d + "]"
+	default:
+		// the same for lists of strings / decimals: padding before the comma or next to the brackets
+		kind := pick(r, []string{"dlist", "slist"})
+		l := genLit(r, kind)
+		j := r.Intn(len(l.Elems))
+		l.Elems[j] = pick(r, []string{" ", "\t", ""}) + l.Elems[j] + pick(r, []string{" ", "\t", " \n"})
+		return "x in [" + strings.Join(l.Elems, ",") + "]"
+	}
+}
 
 var corpusTexts = []string{
 	"order eq 1", "or", "x eq 1.2.3", "x eq 1.2", "x <= 1", "x eq 1e5", "x eq 1e+5", "x ~ 1", "e5 eq 1", "E0 pr", "a.e-5 pr", "x eq -2E7",
@@ -343,6 +401,8 @@ func checkC05(c *Ctx) {
 		fam := "sentence"
 		switch roll := c.R.Intn(100); {
 		case roll < 15:
+		case roll < 22:
+			s, fam = c.nearMiss(t), "near_miss"
 		case roll < 55:
 			s, fam = c.mutate(s), "mutant"
 		case roll < 75:
